@@ -62,6 +62,8 @@ type SymIface struct {
 	Tag   *Term      // Int: type id of the dynamic type (meaningful when !Nil)
 	Ref   *Term      // SRef identity
 	Cases map[string]Value
+	CaseT map[string]types.Type
+	Closed bool // the dynamic type is nil or one of CaseT (merge of concrete alternatives)
 	Taint *Term
 }
 
